@@ -735,12 +735,7 @@ func (e *SpecEnv) indexExpr(v *ast.IndexExpr) Val {
 		i := e.idxTerm(e.eval(v.Index))
 		el := b.Ty.Underlying().(*types.Slice).Elem()
 		p := e.c.elemAddr(e.s, b.Arr, e.c.elemIdx(b.Off, i), el)
-		if isAggregate(el) {
-			if structOf(el) != nil {
-				return p // reference to the element (typed pointer): fields selectable
-			}
-		}
-		return e.c.loadAt(e.s, e.heap, p, el)
+		return e.c.loadAt(e.s, e.heap, p, el) // value semantics (struct elements are loaded field by field)
 	case ArrayV:
 		i := e.idxTerm(e.eval(v.Index))
 		el := b.Ty.Underlying().(*types.Array).Elem()
@@ -988,6 +983,28 @@ func (e *SpecEnv) callExpr(v *ast.CallExpr) Val {
 			r := e.uninterp(v.Args, e.c.ar.idxSort()).(Scalar)
 			r.Ty = types.Typ[types.Int]
 			return r
+		case "trig":
+			// trig(s, k): an arithmetic-free term identifying element k of slice s, for use as a quantifier trigger
+			sl, ok := e.eval(v.Args[0]).(SliceV)
+			if !ok {
+				specFail("trig(s, k): s must be a slice")
+			}
+			i := e.idxTerm(e.eval(v.Args[1]))
+			el := sl.Ty.Underlying().(*types.Slice).Elem()
+			pv := e.c.elemAddr(e.s, sl.Arr, e.c.elemIdx(sl.Off, i), el)
+			if sc, ok := pv.(Scalar); ok {
+				return Scalar{sc.T, SRef, types.Typ[types.UnsafePointer]}
+			}
+			lv := e.c.loadAt(e.s, e.heap, pv, el)
+			switch x := lv.(type) {
+			case Scalar:
+				return x
+			case IfaceV:
+				return Scalar{x.Tag, SInt, types.Typ[types.Int]}
+			case SliceV:
+				return Scalar{x.Arr, SRef, types.Typ[types.UnsafePointer]}
+			}
+			specFail("trig: unsupported element type")
 		case "lastresult":
 			// lastresult("callee"): result of the most recent call of callee on this path (unconstrained if none)
 			name, _ := strconv.Unquote(v.Args[0].(*ast.BasicLit).Value)
@@ -1242,8 +1259,8 @@ func (e *SpecEnv) quant(kind string, args []ast.Expr) Val {
 }
 
 func (e *SpecEnv) quant2(args []ast.Expr) Val {
-	if len(args) != 5 {
-		specFail("forall2(j, k, lo, hi, body)")
+	if len(args) < 5 {
+		specFail("forall2(j, k, lo, hi, body [, triggers...])")
 	}
 	j, ok1 := args[0].(*ast.Ident)
 	k, ok2 := args[1].(*ast.Ident)
@@ -1262,7 +1279,19 @@ func (e *SpecEnv) quant2(args []ast.Expr) Val {
 	hi := n.idxTerm(n.eval(args[3]))
 	guard := fmt.Sprintf("(and %s %s %s)", e.c.idxCmp(token.LEQ, lo, jn), e.c.idxCmp(token.LSS, jn, kn), e.c.idxCmp(token.LSS, kn, hi))
 	body := n.evalBool(args[4])
-	return Scalar{fmt.Sprintf("(forall ((%s %s) (%s %s)) (=> %s %s))", jn, sort, kn, sort, guard, body), SBool, types.Typ[types.Bool]}
+	inner := fmt.Sprintf("(=> %s %s)", guard, body)
+	if len(args) > 5 {
+		var ps []string
+		for _, t := range args[5:] {
+			sc, ok := n.eval(t).(Scalar)
+			if !ok {
+				specFail("trigger must be scalar")
+			}
+			ps = append(ps, sc.T)
+		}
+		inner = fmt.Sprintf("(! %s :pattern (%s))", inner, strings.Join(ps, " "))
+	}
+	return Scalar{fmt.Sprintf("(forall ((%s %s) (%s %s)) %s)", jn, sort, kn, sort, inner), SBool, types.Typ[types.Bool]}
 }
 
 // ---------- types ----------
